@@ -1834,3 +1834,79 @@ def run_error_class_agrees(run, P, deleter='coap_delete_observer', remover='coap
                                   % (sorted(want), sorted(cs), sorted(want - cs) or sorted(cs - want)))
     run.require_count(n >= (2 if run.cfg == 'base' else 1) or run.fixture_mode, 'R-OBS-REPLACE (error class): fewer than 2 sites that delete an observer under a response-class test found')
     return n
+
+
+def run_null_not_wildcard(run, P, units=('coap_block.c',)):
+    """R-CMP-BOUND (an absent key component is a value, not a wildcard): in the transfer look-ups a key component that may be absent (a NULL query, an
+    absent Request-Tag) is compared with memcmp only when present.  Where a memcmp between two strings is controlled by the non-NULL arms of tests of
+    BOTH strings' owners, the NULL arms of those tests do not lead where the EQUAL arm of the memcmp leads: "one side absent" is then a mismatch (or is
+    decided by an explicit test), never a match.  Otherwise a transfer without a query answers requests that carry one, and the reverse."""
+    run.rule('R-CMP-BOUND')
+    n = 0
+    for f in sorted(P.lib_funcs(), key=lambda f: f['name']):
+        if units and not f['loc'].split(':')[0].endswith(tuple(units)):
+            continue
+        B = f['B']
+        for b in f['blocks']:
+            c = strip((b.get('term') or {}).get('cond'))
+            if not (isinstance(c, dict) and len(b.get('succ') or ()) == 2):
+                continue
+            call = None
+            eq_arm = None
+            if c.get('k') == 'bin' and c.get('op') in ('==', '!=') and const_int(c['r']) == 0 and isinstance(strip(c['l']), dict) and strip(c['l']).get('k') == 'call' and strip(c['l']).get('fn') in ('memcmp', 'strncmp'):
+                call = strip(c['l']); eq_arm = b['succ'][0] if c['op'] == '==' else b['succ'][1]
+            elif c.get('k') == 'call' and c.get('fn') in ('memcmp', 'strncmp'):
+                call = c; eq_arm = b['succ'][1]
+            else:
+                # a compound condition (the expansion of coap_string_equal / coap_binary_equal): `memcmp(..) == 0` inside, possibly under one `!`
+                neg = False
+                cc = c
+                while isinstance(cc, dict) and cc.get('k') == 'un' and cc.get('op') == '!':
+                    cc = strip(cc['e']); neg = not neg
+                inner = [y for y in walk(cc) if isinstance(y, dict) and y.get('k') == 'bin' and y.get('op') == '==' and const_int(y['r']) == 0 and
+                         isinstance(strip(y['l']), dict) and strip(y['l']).get('k') == 'call' and strip(y['l']).get('fn') in ('memcmp', 'strncmp')]
+                nots = [y for y in walk(cc) if isinstance(y, dict) and y.get('k') == 'un' and y.get('op') == '!']
+                if len(inner) == 1 and not nots:
+                    call = strip(inner[0]['l']); eq_arm = b['succ'][1] if neg else b['succ'][0]
+            if not call or len(call.get('a') or ()) != 3:
+                continue
+            ops = [ap(call['a'][0]), ap(call['a'][1])]
+            if not all(ops):
+                continue
+            deps = transitive_control_deps(f, b['id'])
+            tested = {0: [], 1: []}
+            for (cb, idx) in deps:
+                cc = strip((B[cb].get('term') or {}).get('cond'))
+                neg = False
+                while isinstance(cc, dict) and cc.get('k') == 'un' and cc.get('op') == '!':
+                    cc = strip(cc['e']); neg = not neg
+                p = ap(cc) if isinstance(cc, dict) and cc.get('k') in ('var', 'mem') and cc.get('p') else None
+                if not p:
+                    continue
+                nonnull_idx = 1 if neg else 0
+                if idx != nonnull_idx:
+                    continue
+                null_target = B[cb]['succ'][1 - nonnull_idx]
+                for i in (0, 1):
+                    # the OWNER of the string (`query` for `query->s`), not the byte pointer itself
+                    if ops[i].startswith(p + '->') and not ops[1 - i].startswith(p + '->'):
+                        tested[i].append((cb, null_target, short(cc)))
+            if not (tested[0] and tested[1]):
+                continue
+            n += 1
+            run.instance('R-CMP-BOUND', '%s: memcmp of two optional strings (%s)' % (f['name'], b.get('loc') or short(call)[:40]))
+            # follow empty forwarding blocks
+            def fwd(i):
+                seen = set()
+                while i is not None and i not in seen and not B[i]['elems'] and len(B[i].get('succ') or ()) == 1:
+                    seen.add(i); i = B[i]['succ'][0]
+                return i
+            bad = [x for i in (0, 1) for x in tested[i] if fwd(x[1]) == fwd(eq_arm)]
+            run.oblige('R-CMP-BOUND', not bad, '%s:absent-is-not-wildcard' % f['name'])
+            if bad:
+                loc = (B[bad[0][0]].get('term') or {}).get('loc') or f['loc']
+                run.violation('R-CMP-BOUND', f['name'], loc, 'absent-component-matches-anything',
+                              'the strings compared by %s are compared only when both `%s` are present, and the arm on which one of them is absent continues where the EQUAL arm of the comparison '
+                              'continues: an absent component matches any value, so two transfers that differ only in it are taken for the same transfer'
+                              % (short(call)[:60], '` and `'.join(sorted(set(x[2] for x in bad)))))
+    return n
